@@ -179,7 +179,7 @@ func c23(in, out string, shard, of int) {
 			file []byte
 		}
 		build := func(sig bool) *built {
-			d := richDocForm(version, mk, sig, k.form)
+			d := richDocForm(version, mk, sig, k.form, true)
 			b := d.Bytes()
 			if k.layout == "objstm" {
 				b = xrefStreamBytes(d)
